@@ -18,6 +18,7 @@ package obfuscation
 // Labelled bounded: never counted as proved.
 
 import (
+	"crypto/md5"
 	"encoding/json"
 	"fmt"
 	"hash/crc32"
@@ -170,4 +171,34 @@ func TestBoundedC16RepeatedMemberNames(t *testing.T) {
 		}
 	}
 	t.Logf("REPLAY bounded: %d (document with repeated member names, exclusion set) cases checked", checked)
+}
+
+// The production hasher on values that already look like a digest: the document tests above use their own hasher, so
+// the real MD5Hasher gets its own small table here (its contract MD5Hasher.HashBytes#the-digest-never-the-input is the
+// unbounded statement). 32-hex strings of either case, near misses, empty and ordinary values, each alone and as a
+// JSON string value through the exported entry point.
+func TestBoundedC16ProductionHasherNeverReturnsItsInput(t *testing.T) {
+	values := []string{
+		"", "a", "true", "4111-1111-1111-1111",
+		"0123456789abcdef0123456789abcdef", "0123456789ABCDEF0123456789ABCDEF", "d41d8cd98f00b204e9800998ecf8427e",
+		"0123456789abcdef0123456789abcde", "0123456789abcdef0123456789abcdef0", "0123456789abcdef0123456789abcdeg",
+		"ffffffffffffffffffffffffffffffff", "00000000000000000000000000000000",
+	}
+	o := Obfuscator{Hasher: MD5Hasher{}}
+	for _, v := range values {
+		want := fmt.Sprintf("%x", md5.Sum([]byte(v)))
+		if got := (MD5Hasher{}).HashBytes([]byte(v)); got != want || got == v {
+			t.Errorf("MD5Hasher.HashBytes(%q) = %q, want the digest %q", v, got, want)
+		}
+		doc, _ := json.Marshal(map[string]string{"k": v})
+		out, err := o.ObfuscateJSON(string(doc), nil)
+		if err != nil {
+			t.Errorf("ObfuscateJSON(%s): %v", doc, err)
+			continue
+		}
+		var m map[string]string
+		if err := json.Unmarshal([]byte(out), &m); err != nil || m["k"] != want {
+			t.Errorf("ObfuscateJSON(%s) = %s, want the value replaced by %q", doc, out, want)
+		}
+	}
 }
